@@ -17,7 +17,7 @@ import os
 
 # obligations = the property theorems and the kernel-evaluated examples/witnesses; the handler lemmas they rest on
 # (Inv.lean, Sync.lean, PodEvents.lean, Lemmas.lean) are checked with them (axiom audit is transitive)
-THEOREMS = ["IstioModel.C15.Theorems", "IstioModel.C15.PodCache", "IstioModel.C15.Derive", "IstioModel.C15.ColdStart",
+THEOREMS = ["IstioModel.C15.Theorems", "IstioModel.C15.PodCache", "IstioModel.C15.Waiting", "IstioModel.C15.Derive", "IstioModel.C15.ColdStart",
             "IstioModel.C15.Examples"]
 
 # Genuine order dependences of the pinned controller that are reproduced exactly by the model and are
@@ -160,10 +160,17 @@ def theorem_coverage(ctx, ops_path):
         good, side, der = f.get("good"), f.get("side"), f.get("derive")
         cold, coldder, nodes = f.get("cold"), f.get("coldderive"), f.get("nodes")
         ctx.count("theorem.cases")
+        sim = len(c) > 0 and "sim" in c[0].split()[3:4]
+        if sim:
+            ctx.count("theorem.sim.cases(simulated well-behaved cluster histories)")
+            if good in ("1", "s"):
+                ctx.count("theorem.sim.all-steps-good")
+            elif good == "-":
+                ctx.count("theorem.sim.stores-ahead")
         if good == "1":
-            ctx.count("theorem.in-class(all steps good, nothing stale at the end)")
+            ctx.count("theorem.in-class(all steps good, nothing stale or waiting at the end)")
         elif good == "s":
-            ctx.count("theorem.in-class(all steps good, a slice still stale at the end)")
+            ctx.count("theorem.in-class(all steps good, a slice still stale or waiting at the end)")
         elif good == "-":
             ctx.count("theorem.outside-class(stores ahead: hold/release window)")
         else:
@@ -319,21 +326,28 @@ MANIFEST = {
                    "history handled write by write (each event and the replays it queues run before the next write), in ANY "
                    "interleaving of the per-kind streams, whose steps satisfy the explicit decidable conditions GoodStep - "
                    "handlers_preserve_inv, convergence_any_order (caches = handler-function of the current objects; podsByIP/ipByPods "
-                   "= the running ready pods of the store; a pod deleted before the slice controller drops its endpoint leaves that "
-                   "slice exempt until its next write), needResync_no_leak, convergence_to_derive (= the spec derive, exact endpoint "
-                   "list incl. conflicting duplicates), order_independent; (2) the cold start - all stores filled before the first "
-                   "handler runs, Add events in ANY order with Services before EndpointSlices - cold_start_inv, "
-                   "cold_start_eq_derive (derive is the model's own cold start), any_order_eq_cold_start (the property as stated: a "
-                   "good history shows what the cold start on its final objects shows). Windows in which the stores run ahead of "
-                   "the handlers in the middle of a history (hold/release) are NOT covered by a theorem; they are generated, run "
-                   "on model and real controller, and compared with the cold start by the oracle. One witness theorem per order "
-                   "dependence the conditions exclude. The model is tied to /repo on every run by a line-by-line differential "
-                   "against a REAL controller on kube.NewFakeClient fed the same object history in the same interleaving, and the "
-                   "property itself (ordered run = cold start on the final objects) is evaluated on the real code for every case."),
+                   "= the running ready pods of the store, pod IP changes of a ready pod included; a slice seen BEFORE its pod waits "
+                   "through the pod's Pending events without IP and is repaired by the event that carries the address; a pod deleted "
+                   "before the slice controller drops its endpoint leaves that slice exempt until its next write), "
+                   "needResync_no_leak, convergence_to_derive (= the spec derive, exact endpoint list incl. conflicting duplicates), "
+                   "order_independent; (2) the cold start - all stores filled before the first handler runs, Add events in ANY order "
+                   "with Services before EndpointSlices - cold_start_inv, cold_start_eq_derive (derive is the model's own cold "
+                   "start), any_order_eq_cold_start (the property as stated: a good history shows what the cold start on its final "
+                   "objects shows). NOT covered by a theorem, only generated, run on model and real controller and compared with the "
+                   "cold start by the oracle: windows in which the stores run ahead of the handlers in the middle of a history "
+                   "(hold/release); Namespace writes that change the traffic-distribution annotation of a namespace holding Services "
+                   "(reprocessServicesInNamespace, fix 70cda90 - the theorems need the annotation unchanged or the namespace empty, and "
+                   "no namespace-wide annotation in the cold start); EndpointSlice writes that change the service-name label or the "
+                   "address type (fix 1e33f42); a pod whose IP changes in the same update in which it stops being ready; steps of the "
+                   "finding classes (label edit on a pod that is not ready, Node or Service learnt after the slice, ...). One witness "
+                   "theorem per order dependence the conditions exclude. The model is tied to /repo on every run by a line-by-line "
+                   "differential (exact endpoint lists) against a REAL controller on kube.NewFakeClient fed the same object history in "
+                   "the same interleaving, and the property itself (ordered run = cold start on the final objects) is evaluated on the "
+                   "real code for every case."),
     "level_note": ("Trusted: Lean kernel + {propext, Classical.choice, Quot.sound}; the hand-written model (tied by differential testing); "
                    "two verif-tagged accessor files; the fake Kubernetes client with an emulated pod field selector. One registry only; "
-                   "workload entries, MCS, multi-network not modelled. The real controller is NOT confluent on all histories: the "
-                   "order dependences found are listed as findings (three repaired by fix: commits, the others known) and the "
+                   "workload entries, MCS, multi-network not modelled; pilot/pkg/serviceregistry/aggregate (merging several registries) is not covered. The real controller is NOT confluent on all histories: the "
+                   "order dependences found are listed as findings (four repaired by fix: commits, the others known) and the "
                    "convergence theorems carry explicit decidable hypotheses that exclude exactly those classes; a divergence of the "
                    "real controller is accepted as known only when the Lean model reproduces it AND names, as its cause, a step of "
                    "the history that violates the GoodStep clause of that class."),
